@@ -24,6 +24,8 @@ Logged ==
           \* the message names the file; a line number, when given, is that of a line that was read
           /\ (Ev.out \in {"LoadError", "FileFormatError"} => Ev.namesfile)
           /\ (Ev.lineno # <<>> => (Ev.lineno[1] >= 0 /\ Ev.lineno[1] <= Ev.nread))
+          \* ... and it is the last one: LineIter!LinenoLaw at the point of the error (lines delivered by the file minus lines pushed back)
+          /\ (("stack" \in DOMAIN Ev /\ Ev.lineno # <<>>) => (Ev.stack # <<>> => Ev.lineno[1] = Ev.nread - Ev.stack[1]))
           /\ UNCHANGED vars
   /\ l' = l + 1 /\ UNCHANGED tid
   /\ TLCSet(tid, IF TLCGet(tid) < l THEN l ELSE TLCGet(tid))
